@@ -347,9 +347,9 @@ def _state_member_holds_every_number(ctx, rep, tier):
         return None
 
     # what _fail_state_index can return
-    fsi = model.func("CodegenCtx._fail_state_index")
+    fsi = model.functions.get("CodegenCtx._fail_state_index")       # (absent on trees from before the marker existed: then only state indexes are stored)
     stored = {}
-    for r in ast.walk(fsi):
+    for r in (ast.walk(fsi) if fsi is not None else ()):
         if isinstance(r, ast.Return) and r.value is not None:
             o = offset(ast.unparse(r.value))
             if o is None:
